@@ -62,6 +62,22 @@ func genC06(t *rapid.T) c6Case {
 		if len(c.Globals) == 0 {
 			c.Globals = nil
 		}
+		// a caller may hand over a key without any value (nil or an empty list): present, and not "false"
+		keys := make([]string, 0, len(c.Globals))
+		for k := range c.Globals {
+			keys = append(keys, k)
+		}
+		sort.Strings(keys)
+		for _, k := range keys {
+			if v := c.Globals[k]; len(v) == 1 && v[0] == "" {
+				switch rapid.IntRange(0, 3).Draw(t, "novalue") {
+				case 0:
+					c.Globals[k] = nil
+				case 1:
+					c.Globals[k] = []string{}
+				}
+			}
+		}
 	}
 	ne := rapid.IntRange(1, len(c.Mod.Pkgs)).Draw(t, "nentries")
 	perm := rapid.Permutation(c.Mod.Pkgs).Draw(t, "entryorder")
